@@ -113,30 +113,33 @@ def run(ctx):  # noqa: C901, PLR0912, PLR0915
     # ------------------------------------------------------------------ R3
     ar = repo.func(f'{W}.WSDiscovery._add_remote_service')
     g = cfg_of(ar)
+    # path conditions over symbolically written-out tests ($1 = the announced service, K = the stored entry for its epr):
+    #   the entry is (re)placed exactly when the epr is given and (there is no entry or the announcement is newer);
+    #   fields of the stored entry are written only when both versions are equal.
+    from engine.pathcond import worlds_of
+    K = 'self._remote_services.get($1.epr)'
+    EPR, EQ, GT = '$1.epr', f'$1.metadata_version == {K}.metadata_version', f'$1.metadata_version > {K}.metadata_version'
+    w = worlds_of(g, extra_atoms=(EPR, K, EQ, GT), symbolic=True)
+    sane = w.mask(f'not (({EQ}) and ({GT}))')   # the two comparisons exclude each other
     stores = [n for n in g.real_nodes() if n.kind == 'stmt' and isinstance(n.stmt, ast.Assign) and
-              unparse(n.stmt.targets[0]) == 'self._remote_services[service.epr]']
-    kinds = []
-    for n in stores:
-        facts = g.facts_at(n)
-        if ('already_known_service', False) in facts:
-            kinds.append('unknown')
-        elif ('service.metadata_version > already_known_service.metadata_version', True) in facts:
-            kinds.append('newer')
-        else:
-            kinds.append(f'other:{facts}')
-    ok = sorted(kinds) == ['newer', 'unknown'] and all(unparse(n.stmt.value) == 'service' for n in stores)
+              g.symbolic_text(n, n.stmt.targets[0]) == 'self._remote_services[$1.epr]']
+    kinds = w.describe(w.cond_any(stores) & sane) if stores else 'never'
+    want = w.mask(f'({EPR}) and (not ({K}) or (({GT}) and not ({EQ})))')
+    ok = bool(stores) and ((w.cond_any(stores) ^ want) & sane) == 0 and \
+        all(g.symbolic_text(n, n.stmt.value) == '$1' for n in stores)
     ctx.ob('C14.R3', 'replace only for unknown or newer', ok,
            'the stored announcement is replaced only for an unknown epr or a higher metadata version' if ok else
-           f'_add_remote_service replaces the stored announcement under {kinds}', fi=ar, witness=kinds)
+           f'_add_remote_service replaces the stored announcement when: {kinds}', fi=ar, witness=kinds)
     merges = [n for n in g.real_nodes() if n.kind == 'stmt' and isinstance(n.stmt, ast.Assign) and
-              unparse(n.stmt.targets[0]).startswith('already_known_service.')]
-    ok = bool(merges) and all(('service.metadata_version == already_known_service.metadata_version', True) in g.facts_at(n)
-                              for n in merges)
-    ctx.ob('C14.R3', 'merge only for the same version', ok,
-           'fields of the stored announcement are changed only by an announcement with the same metadata version', fi=ar)
+              isinstance(n.stmt.targets[0], ast.Attribute) and
+              g.symbolic_text(n, n.stmt.targets[0].value) == K]
+    imp = (w.cond_any(merges) & sane & ~w.mask(f'({EPR}) and ({K}) and ({EQ})') & w.all) == 0 if merges else False
+    ctx.ob('C14.R3', 'merge only for the same version', bool(merges) and imp,
+           'fields of the stored announcement are changed only by an announcement with the same metadata version', fi=ar,
+           witness=w.describe(w.cond_any(merges) & sane) if merges else None)
     dels = [n for n in g.real_nodes() if n.kind == 'stmt' and isinstance(n.stmt, ast.Delete)] + g.nodes_calling('pop')
     ctx.ob('C14.R3', 'no removal on announcements', not dels, '_add_remote_service never removes an entry', fi=ar)
-    eprg = [n for n in g.nodes if n.kind == 'return' and ('service.epr', False) in g.facts_at(n)]
+    eprg = [n for n in g.nodes if n.kind == 'return' and ('$1.epr', False) in g.facts_symbolic(n)]
     ctx.ob('C14.R3', 'announcement without epr ignored', bool(eprg), 'an announcement without epr is ignored', fi=ar)
     bye = repo.func(f'{W}.WSDiscovery._handle_received_bye')
     src = xsrc(bye)
@@ -183,20 +186,13 @@ def run(ctx):  # noqa: C901, PLR0912, PLR0915
 
     # ------------------------------------------------------------------ R5
     mf = repo.func(f'{W}.matches_filter')
-    ok, why = _matches_filter_shape(mf.node)
+
+    def _helper(name):
+        # the two private predicates (when they exist) are expanded into the formula; match_type / match_scope stay atoms
+        f = repo.funcs.get(f'{W}.{name}')
+        return f.node if f is not None and name.startswith('_') else None
+    ok, why = _matches_filter_shape(mf.node, _helper)
     ctx.ob('C14.R5', 'matches_filter shape', ok, why, fi=mf)
-    from engine.boolform import equivalent, function_formula, mk
-    for fname, want, txt in (
-            ('_is_type_in_list', ('exists', 'types', ('atom', 'match_type(ttype, $0)')),
-             'exists offered type: match_type(requested, offered)'),
-            ('_is_scope_in_list', mk('and', [('not', ('atom', 'srv_sc is None')),
-                                             ('exists', 'srv_sc.text', ('atom', 'match_scope(uri, $0, match_by)'))]),
-             'offered scopes present and exists offered scope: match_scope(requested, offered, rule)')):
-        fi = repo.func(f'{W}.{fname}')
-        got = function_formula(fi.node)
-        ok, counter = equivalent(got, want)
-        ctx.ob('C14.R5', f'{fname}', ok, f'{fname} is `{txt}`' if ok else f'{fname} is {got}, expected `{txt}`', fi=fi,
-               witness={'formula': repr(got)[:300]})
     mt = repo.func(f'{W}.match_type')
     ctx.ob('C14.R5', 'match_type', unparse(mt.node.body[-1]) ==
            'return type1.namespace == type2.namespace and type1.localname == type2.localname',
@@ -222,15 +218,20 @@ def run(ctx):  # noqa: C901, PLR0912, PLR0915
     ctx.ob('C14.R6', 'default rule is rfc3986', ok, 'an absent MatchBy selects the RFC 3986 rule', fi=ms)
 
 
-def _matches_filter_shape(fn):
-    """Translate matches_filter into a quantified formula (engine.boolform) and compare it with the required one."""
+def _matches_filter_shape(fn, resolver):
+    """Translate matches_filter - with its private helper predicates expanded - into a quantified formula (engine.boolform)
+    and compare it with the required one.  Loops with early return, all()/any(), guard clauses and helpers merged into the
+    caller all give the same formula."""
     from engine.boolform import equivalent, function_formula, mk
-    got = function_formula(fn)
+    got = function_formula(fn, resolver)
+    p_service, p_types, p_scopes = (a.arg for a in fn.args.args[:3])
     want = mk('and', [
-        mk('or', [('atom', 'types is None'),
-                  ('forall', 'types', ('atom', '_is_type_in_list($0, service.types)'))]),
-        mk('or', [('atom', 'scopes is None'),
-                  ('forall', 'scopes.text', ('atom', '_is_scope_in_list($0, scopes.MatchBy, service.scopes)'))]),
+        mk('or', [('atom', f'{p_types} is None'),
+                  ('forall', p_types, ('exists', f'{p_service}.types', ('atom', 'match_type($0, $1)')))]),
+        mk('or', [('atom', f'{p_scopes} is None'),
+                  ('forall', f'{p_scopes}.text',
+                   mk('and', [('not', ('atom', f'{p_service}.scopes is None')),
+                              ('exists', f'{p_service}.scopes.text', ('atom', f'match_scope($0, $1, {p_scopes}.MatchBy)'))]))]),
     ])
     ok, counter = equivalent(got, want)
     if not ok:
@@ -287,20 +288,38 @@ def _match_scope_symbolic(ms):  # noqa: C901, PLR0911, PLR0912
         return False, 'prefix comparison is not a plain all(<generator>)', False, 'see R5', wit
     it = gen.generators[0].iter
     tgt = gen.generators[0].target
-    if not (isinstance(it, ast.Call) and call_name(it) == 'enumerate' and isinstance(tgt, ast.Tuple) and len(tgt.elts) == 2
+    if not (isinstance(it, ast.Call) and isinstance(tgt, ast.Tuple) and len(tgt.elts) == 2
+            and all(isinstance(x, ast.Name) for x in tgt.elts)
             and isinstance(gen.elt, ast.Compare) and len(gen.elt.ops) == 1 and isinstance(gen.elt.ops[0], ast.Eq)):
-        return False, 'prefix comparison is not all(X[i] == e for i, e in enumerate(A))', False, 'see R5', wit
-    idx, el = (x.id for x in tgt.elts)
+        return False, 'prefix comparison is not an element-wise equality over the two segment lists', False, 'see R5', wit
     sides = [gen.elt.left, gen.elt.comparators[0]]
-    sub = next((x for x in sides if isinstance(x, ast.Subscript) and isinstance(x.slice, ast.Name) and x.slice.id == idx), None)
-    elem = next((x for x in sides if isinstance(x, ast.Name) and x.id == el), None)
-    if sub is None or elem is None:
-        return False, 'prefix comparison does not compare X[i] with the enumerated element', False, 'see R5', wit
+    if call_name(it) == 'zip' and len(it.args) == 2 and not it.keywords:
+        # all(o == m for m, o in zip(A, X)): element-wise over both lists; which list may be the shorter one (= whose elements
+        # all have to match) is decided by the length guard below - A is the one that is guarded to be no longer than X
+        names = {x.id for x in sides if isinstance(x, ast.Name)}
+        if names != {t.id for t in tgt.elts}:
+            return False, 'prefix comparison does not compare the two zipped elements', False, 'see R5', wit
+        first, second = txt(it.args[0]), txt(it.args[1])
+        zipped = True
+    elif call_name(it) == 'enumerate':
+        zipped = False
+        idx, el = (x.id for x in tgt.elts)
+        sub = next((x for x in sides if isinstance(x, ast.Subscript) and isinstance(x.slice, ast.Name) and x.slice.id == idx),
+                   None)
+        elem = next((x for x in sides if isinstance(x, ast.Name) and x.id == el), None)
+        if sub is None or elem is None:
+            return False, 'prefix comparison does not compare X[i] with the enumerated element', False, 'see R5', wit
+        first, second = txt(it.args[0]), txt(sub.value)
+    else:
+        return False, 'prefix comparison is neither all(X[i] == e for i, e in enumerate(A)) nor all(.. zip(A, X))', False, \
+            'see R5', wit
     for c in ast.walk(ms.node):
         if isinstance(c, (ast.ListComp, ast.GeneratorExp)) and any(gen_.ifs for gen_ in c.generators):
             return True, '', False, (f'a normalisation step filters segments ({unparse(c)[:60]}): empty segments are dropped, '
                                      f'so //, trailing slashes and the prefix rule are no longer respected'), wit
-    a_txt, x_txt = txt(it.args[0]), txt(sub.value)
+    a_txt, x_txt = first, second
+    if zipped and a_txt != x_txt and 'urlsplit($1)' in a_txt and 'urlsplit($0)' in x_txt:
+        a_txt, x_txt = x_txt, a_txt   # zip is symmetric; the guard decides (checked below with the requested operand first)
 
     def norm(p):
         return f"[unquote($c0) for $c0 in urlsplit({p}).path.split('/')]"
